@@ -46,7 +46,7 @@ func runCustom(c *Ctx) {
 			}
 		}
 	}
-	c.Note("product", fmt.Sprintf("12 custom types (IsBoolFlag absent/false/true x Clear absent/present x IsDefault absent/present), declared as option -c/--cc and as argument C, x specs %q x environment values %q (on the option, or on the argument when the spec has no option) x %d argvs (length <= %d over %q; the token FAIL makes Set return an error)", c19Specs, c19Envs, len(argvs), alen, c19Toks))
+	c.Note("product", fmt.Sprintf("16 custom types (12 struct types: IsBoolFlag absent/false/true x Clear absent/present x IsDefault absent/present; 4 method-less types whose underlying kind is bool, []string, string, int), declared as option -c/--cc and as argument C, x specs %q x environment values %q (on the option, or on the argument when the spec has no option) x %d argvs (length <= %d over %q; the token FAIL makes Set return an error)", c19Specs, c19Envs, len(argvs), alen, c19Toks))
 }
 
 func replayCustom(c *Ctx, cs Case) {
